@@ -129,6 +129,50 @@ func genC05ecdsa(c *Ctx) {
 				c.Case("ecdsa-pkc-coord", fmt.Sprintf("ecdsa pkdecc %s %s", cv.name, hx(o)), decPubCompressed(cv.algo, o))
 			}
 		}
+		// points whose x-coordinate lies next to the field prime or next to the group order (n < p on both curves, so
+		// [n, p) holds reduced coordinates that a check against the wrong modulus rejects): y by the harness's own
+		// square root, both roots, raw and compressed forms
+		{
+			ca, cb := big.NewInt(-3), hexInt("5ac635d8aa3a93e7b3ebbd55769886bc651d06b0cc53b0f63bce3c3e27d2604b")
+			if cv.name == "k256" {
+				ca, cb = big.NewInt(0), big.NewInt(7)
+			}
+			kmax := int64(24)
+			if c.thorough() {
+				kmax = 200
+			}
+			for _, base := range []*big.Int{cv.p, cv.n} {
+				for k := -kmax; k <= kmax; k++ {
+					x := add(base, k)
+					if x.Sign() < 0 || x.BitLen() > 256 {
+						continue
+					}
+					for _, pre := range []byte{2, 3} {
+						o := append([]byte{pre}, be(x, 32)...)
+						c.Case("ecdsa-pkc-x-near-modulus", fmt.Sprintf("ecdsa pkdecc %s %s", cv.name, hx(o)), decPubCompressed(cv.algo, o))
+					}
+					if x.Cmp(cv.p) >= 0 {
+						continue
+					}
+					rhs := new(big.Int).Exp(x, big.NewInt(3), cv.p)
+					rhs.Add(rhs, new(big.Int).Mul(ca, x))
+					rhs.Add(rhs, cb)
+					rhs.Mod(rhs, cv.p)
+					y := new(big.Int).ModSqrt(rhs, cv.p)
+					if y == nil {
+						continue
+					}
+					for _, yy := range []*big.Int{y, new(big.Int).Sub(cv.p, y)} {
+						o := append(be(x, 32), be(yy, 32)...)
+						c.Case("ecdsa-pk-x-near-modulus", fmt.Sprintf("ecdsa pkdec %s %s", cv.name, hx(o)), decPub(cv.algo, o))
+						// and with the coordinates exchanged on k256-like y: the same value as a y-coordinate is covered
+						// by the swapped variant below when it happens to be on the curve
+						sw := append(be(yy, 32), be(x, 32)...)
+						c.Case("ecdsa-pk-x-near-modulus-swapped", fmt.Sprintf("ecdsa pkdec %s %s", cv.name, hx(sw)), decPub(cv.algo, sw))
+					}
+				}
+			}
+		}
 		for i := 0; i < nRand*4; i++ {
 			o := c.bytes(33)
 			o[0] = 2 + byte(c.intn(2))
